@@ -266,7 +266,7 @@ var prop = h.Prop[Spec]{
 		return s
 	},
 	Check:    check,
-	Watchdog: 20 * time.Second,
+	Watchdog: 60 * time.Second,
 }
 
 // more wounds than the 1024-slot wound channel holds
@@ -281,7 +281,7 @@ var propMany = h.Prop[Spec]{
 		return s
 	},
 	Check:    check,
-	Watchdog: 30 * time.Second,
+	Watchdog: 120 * time.Second,
 }
 
 func TestProp(t *testing.T) { h.Run(t, prop) }
